@@ -1235,6 +1235,10 @@ func vRunC03Case(out *vOut, r *vRand, id int, stats map[string]int) {
 	maxb := int64([]int{90, 140, 220}[r.intn(3)])
 	compact := r.intn(3) == 0
 	opts := Options{MaxSegmentBytes: maxb, Compact: compact, CompactMaxGoroutines: 1}
+	retention := !compact && r.intn(2) == 0
+	if retention {
+		opts.MaxLogMessages = int64(3 + r.intn(6))
+	}
 	c := vNewLogCase(out, id, "c03", opts, stats)
 	if c.l == nil {
 		return
@@ -1263,7 +1267,13 @@ func vRunC03Case(out *vOut, r *vRand, id int, stats map[string]int) {
 			appendSome(1 + r.intn(2))
 		case 1:
 			if nw >= 0 {
-				c.doHW(int64(r.intn(int(nw) + 1)))
+				h := int64(r.intn(int(nw) + 1))
+				// retention that outruns replication (HW below the oldest retained offset) is not
+				// part of this profile: the HW stays inside the retained log
+				if od := c.l.OldestOffset(); retention && h < od {
+					h = od
+				}
+				c.doHW(h)
 			}
 		case 2: // a committed reader somewhere at or below the HW (or parked just above it)
 			c.doReaderOpen(int64(r.intn(int(hw)+2)), false)
@@ -1295,6 +1305,18 @@ func vRunC03Case(out *vOut, r *vRand, id int, stats map[string]int) {
 				c.layout()
 				c.doCompactKeepingReaders()
 				c.layout()
+			} else if retention {
+				// the retention policy deletes whole segments under live readers, parked or not
+				if nw >= 0 && hw < nw && r.intn(2) == 0 {
+					c.doHW(nw)
+				}
+				c.layout()
+				c.doCleanRetention(0)
+				c.layout()
+				if od := c.l.OldestOffset(); od >= 0 && c.l.HighWatermark() < od && !c.viol {
+					c.doHW(od)
+				}
+				stats["c03/retention-with-live-readers"]++
 			}
 		}
 		c.state()
